@@ -66,6 +66,7 @@ def pmap(fn, items, nproc=None, item_timeout=600, label=lambda it: str(it)[:100]
       p = ctx.Process(target=_child, args=(fn, it, b))
       p.start(); b.close()
       running[i] = (p, a, time.time(), it)
+      if os.environ.get('VERIF_PMAP_LOG'): print(f'[pmap] start pid={p.pid} {label(it)}', file=sys.stderr, flush=True)
     time.sleep(0.01)
     for i in list(running):
       p, a, t0, it = running[i]
@@ -74,6 +75,7 @@ def pmap(fn, items, nproc=None, item_timeout=600, label=lambda it: str(it)[:100]
         except EOFError: res = {'error': 'worker died without a result'}
         p.join(); a.close()
         out[i] = (it, res); del running[i]
+        if os.environ.get('VERIF_PMAP_LOG'): print(f'[pmap] done {time.time()-t0:.1f}s {label(it)}', file=sys.stderr, flush=True)
       elif not p.is_alive():
         p.join(); a.close()
         out[i] = (it, {'error': f'worker exited with code {p.exitcode} without a result'}); del running[i]
@@ -287,11 +289,14 @@ def prove(pc, prop, timeout_ms=60000):
   import z3
   from symx import core
   s = z3.Solver()
-  s.set('timeout', timeout_ms)
+  s.set('timeout', min(timeout_ms, 10000))
   s.add(*pc)
   s.add(z3.Not(prop))
   t0 = time.time()
   r = s.check()
+  if r == z3.unknown:      # erratic SMT core on some term orders: bit-blast + SAT, then a fresh solver with the full budget
+    r, s2 = core.robust_check(list(s.assertions()), timeout_ms, want_model=True)
+    if s2 is not None: s = s2
   core.STATS.solver_s += time.time() - t0
   core.STATS.solver_checks += 1
   if r == z3.unsat:
